@@ -1,0 +1,7 @@
+//go:build !verif
+
+package resolve
+
+func verifPoint(point string, a, b uint64) {}
+
+func verifBool(v bool) uint64 { return 0 }
